@@ -283,9 +283,8 @@ class BoundingBox(Sequence[float]):
         :param transform: Affine mapping from pixel to world
         :param crs: CRS
         """
-        p1 = transform * (0, 0)
-        p2 = transform * shape_(shape).xy
-        return BoundingBox.from_points(p1, p2, crs=crs)
+        nx, ny = shape_(shape).xy
+        return BoundingBox(0, 0, nx, ny, crs).transform(transform)
 
     @property
     def aoi(self) -> AreaOfInterest:
